@@ -44,6 +44,13 @@ RatioCases == {[kind |-> "ratio", m |-> SPARSE, cls |-> "zeros", target |-> r] :
          \cup {[kind |-> "ratio", m |-> m, cls |-> cl, target |-> r] :
                   m \in {ZLIB, BZIP2}, cl \in {"zeros", "run"}, r \in {MaxRatio - 1, MaxRatio, MaxRatio + 1}}   \* (lzma-rs never exceeds ~40:1)
 ASSUME \A d \in {100, 512, 513, 4096, 4097, 65536, 65537} : AdaptiveLimit(d, SPARSE) > 130
+\* Tail cases: units that shrink and END in a short zero tail -- a non-zero run of >= 4 bytes followed by exactly 1, 2 or
+\* 3 zeros ("...name\0"), or a zero run of 127..131 bytes at the very end -- for sparse and for every supported
+\* multi-method selector containing sparse: the sparse encoder closes such a unit with a maximal zero token and relies
+\* on the decoder clamping it to the bytes still missing
+TailClasses == {"ztail1", "ztail2", "ztail3", "zend127", "zend128", "zend129", "zend130", "zend131"}
+TailCases == {[m |-> m, len |-> n, cls |-> cl] :
+                m \in {SPARSE, ADPCM_MONO + SPARSE, ADPCM_STEREO + SPARSE}, n \in {320, 332, 512, 4100}, cl \in TailClasses}
 \* History cases: the same unit is decompressed `calls` times in one process; the cumulative volume passes every session
 \* budget of security.rs (strict 100 MB, default 1 GiB in both tiers; permissive 16 GiB in thorough)
 HistCases == {[kind |-> "hist", m |-> SPARSE, cls |-> "zeros", len |-> 2097152, calls |-> IF Thorough THEN 8300 ELSE 600],
@@ -52,7 +59,7 @@ HistCases == {[kind |-> "hist", m |-> SPARSE, cls |-> "zeros", len |-> 2097152, 
 
 CaseSet == IF Thorough THEN Full ELSE {c \in Full : InQuick(c)} \cup QuickBig
 ASSUME QuickBig \subseteq Full
-Cases == SetToSeq(CaseSet) \o SetToSeq(RatioCases) \o SetToSeq(HistCases)
+Cases == SetToSeq(CaseSet) \o SetToSeq(TailCases) \o SetToSeq(RatioCases) \o SetToSeq(HistCases)
 \* Codec declares state variables; the generator is a constant-level evaluation with a trivial behaviour
 GOne(n) == {1}
 GInit == CInitWith({0}, {0}, GOne)
